@@ -493,7 +493,16 @@ def wait_release(chk: Check) -> None:
             awaited.append((canon.key(n.value), n))
     chk.floor('FUT-wait-release', len(awaited), 1)
     sut = prog.func('processes.Process.step_until_terminated')
-    loop_ok = any(isinstance(n, ast.While) and norm(n.test) in ('not self.has_terminated()', 'not self._state.is_terminal()') for n in ast.walk(sut.node))
+    NOT_T = ('not self.has_terminated()', 'not self._state.is_terminal()')
+    loop_ok = any(isinstance(n, ast.While) and norm(n.test) in NOT_T for n in ast.walk(prog.view(sut).node))
+    # (the same loop with the test at the top of the body: ``while True: if <terminated>: return / break ; await self.step()``)
+    for n in ast.walk(prog.view(sut).node):
+        if isinstance(n, ast.While) and isinstance(n.test, ast.Constant) and n.test.value is True and n.body and isinstance(n.body[0], ast.If) and not n.body[0].orelse:
+            t0 = n.body[0]
+            leaves = len(t0.body) == 1 and isinstance(t0.body[0], (ast.Return, ast.Break)) and (not isinstance(t0.body[0], ast.Return) or t0.body[0].value is None
+                                                                                                 or norm(t0.body[0].value) == 'None')
+            only_exit = not any(isinstance(x, (ast.Break, ast.Return)) for st in n.body[1:] for x in ast.walk(st))
+            loop_ok = loop_ok or (f'not {norm(t0.test)}' in NOT_T and leaves and only_exit)
     chk.ob('FUT-wait-release', sut, loop_ok, 'step_until_terminated() loops exactly while the process has not terminated', kind='loop-condition')
     ot = prog.func('processes.Process.on_terminated')
     # functions reachable synchronously from on_terminated (hook chains included)
